@@ -32,6 +32,11 @@ def bypass_scenarios(seed, n):
                 {"t": t, "node": node, "op": "send_message", "ca": 1, "prio": 3, "pgn": 0xF004, "data": [9]},
                 {"t": t, "node": node, "op": "send_request", "ca": 1, "dp": 0, "pgn": rng.choice([0xEE00, 0xFECA]), "dest": 255}]))
         ops.append({"t": 100000, "node": "B", "op": "start", "ca": 1, "delay": 0})       # no preferred address: never claims
+        if i % 2:
+            # the bypassed CA (it owns its address without ever having been started) loses it to a lower NAME at 0.35 s:
+            # from then on it must not send from that address any more
+            pref = nodes[0]["cas"][0]["pref"]
+            ops.append({"t": 350000, "node": "A", "op": "inject", "id": (6 << 26) | (0xEE << 16) | (0xFF << 8) | pref, "data": [0] * 8})
         out.append({"dll": "j1939-21", "nodes": nodes, "ops": ops, "dur": 1_500_000, "expect": {"settled": False}})
     return out
 
